@@ -198,3 +198,31 @@ brk("c12-datetime-utc-local", ["C12"], "src/value.rs",
     """    impl From<DateTime<Local>> for Value {
         fn from(v: DateTime<Local>) -> Value {
             Value::ChronoDateTimeUtc(Some(Box::new(v.with_timezone(&Utc))))""", "C12.R")
+
+# ---- C03 / C17 -------------------------------------------------------------------------------------------------
+brk("c03-pg-prefix-inverted", ["C03"], "src/backend/postgres/query.rs", "let string = if escaped.find('\\\\').is_some() {", "let string = if escaped.find('\\\\').is_none() {", "C03.R")
+brk("c03-backslash-last", ["C03", "C17"], "src/backend/mod.rs",
+    """        string
+            .replace('\\\\', "\\\\\\\\")
+            .replace('"', "\\\\\\"")""",
+    """        string
+            .replace('"', "\\\\\\"")
+            .replace('\\\\', "\\\\\\\\")""", "R1:")
+brk("c03-bytes-no-pad", ["C03"], "src/backend/query_builder.rs", 'write!(buffer, "{b:02X}").unwrap();', 'write!(buffer, "{b:X}").unwrap();', "C03.R5")
+brk("c03-comment-unescaped", ["C03"], "src/backend/mysql/table.rs",
+    """            let comment = self.escape_string(comment);
+            write!(sql, " COMMENT '{comment}'").unwrap();""",
+    """            write!(sql, " COMMENT '{comment}'").unwrap();""", "C03.R3:quoted-hole")
+brk("c17-unescape-wrong-table", ["C17"], "src/backend/mod.rs", "                        't' => '\\x09',\n", "                        't' => '\\x0b',\n", "C17.R2")
+brk("c17-sqlite-unescape", ["C17"], "src/backend/sqlite/mod.rs", """string.replace("''", "'")""", """string.replace("'", "")""", "C17.R3")
+ben("c03-benign-push-e", ["C03"], "src/backend/postgres/query.rs",
+    """        let string = if escaped.find('\\\\').is_some() {
+            "E'".to_owned() + &escaped + "'"
+        } else {
+            "'".to_owned() + &escaped + "'"
+        };
+        write!(buffer, "{string}").unwrap()""",
+    """        if escaped.contains('\\\\') {
+            buffer.push('E');
+        }
+        write!(buffer, "'{escaped}'").unwrap()""")
